@@ -19,6 +19,10 @@
 //!   scale.chk.ellipse.styled x y w h <style> n   scale.chk.ellipse.draw x y w h <style> n
 //!   scale.chk.rrect.styled x y w h <8 radii> <style> n      scale.chk.rrect.draw x y w h <8 radii> <style> n
 //!   scale.chk.poly.draw x0 y0 x1 y1 x2 y2 w n
+//!   scale.chk.glyph imgW imgH cw ch sp bl ulOff ulH stOff stH mul colours ul st baseline x y <code points>
+//!     `MonoTextStyle::draw_string` with a user-defined `MonoFont` over a blank imgW x imgH atlas (glyph index
+//!     `(c - 32) * mul`); colours: bit 0 text colour, bit 1 background; ul / st: 0 none, 1 text colour, 2 custom;
+//!     result: every target call (`di:<pixels>`, `fc:<rect>:<colours>`, `fs:<rect>:<colour>`) and the returned position
 //!     `.styled` = `into_styled(style).pixels().take(n)` as `x,y,colour;...`; `.draw` = the first n `fill_solid` calls
 //!     of `draw()` on a target that returns an error from call n + 1 on, as `x,y,w,h,colour;...`;
 //!     <style> = fill stroke width align (shapes.rs)
@@ -31,7 +35,10 @@ use super::{b, biased, coord, gen_simple, guard, lds, ods, pds, rds, K, OFFS, XI
 use crate::common::*;
 use crate::shapes::{mdeg, parse_style};
 use embedded_graphics::{
-    pixelcolor::Rgb565,
+    image::ImageRaw,
+    mono_font::{DecorationDimensions, MonoFont, MonoTextStyleBuilder},
+    pixelcolor::{BinaryColor, Rgb565},
+    text::{renderer::TextRenderer, Baseline, DecorationColor},
     prelude::*,
     primitives::{Arc, Circle, ContainsPoint, CornerRadii, Ellipse, OffsetOutline, Polyline, PrimitiveStyle, Rectangle, RoundedRectangle, Sector, Styled, Triangle},
     verif_hooks,
@@ -620,6 +627,83 @@ pub fn generate(tier: Tier, rng: &mut Rng, emit: &mut dyn FnMut(String)) {
         let k = if small { 5000 } else { *rng.pick(&[0i64, 1, 5, 40]) };
         emit(format!("scale.chk.poly.draw {} {} {}", join6(&v), w, k));
     }
+
+    // ---- glyph rendering ---------------------------------------------------------------------
+    // metrics of a few built-in fonts (atlas 16 glyphs per row) and degenerate / extreme user fonts
+    const FONTS: [&str; 8] = [
+        "64 24 4 6 0 4 6 1 3 1 1",     // FONT_4X6 like
+        "64 40 8 8 0 6 9 1 4 1 1",
+        "60 20 6 10 1 7 11 1 5 1 1",
+        "64 64 10 20 2 15 21 2 10 1 1",
+        "0 0 0 0 0 0 0 0 0 0 1",      // the null font
+        "8 8 9 8 0 0 0 0 0 0 1",      // atlas narrower than a character
+        "64 64 1 1 0 0 2 1 0 1 3",
+        "16 16 16 16 1024 1024 1024 1 1024 1 0",
+    ];
+    let text_of = |rng: &mut Rng, n: i64| -> String {
+        if n == 0 {
+            return "-".to_string();
+        }
+        (0..n).map(|_| (if rng.chance(1, 8) { *rng.pick(&[0i64, 10, 31, 127, 160, 255, 8364, 0x10FFFF]) } else { rng.range(32, 126) }).to_string()).collect::<Vec<_>>().join(",")
+    };
+    for f in FONTS {
+        for (tail, txt) in [("1 0 0 0 0 0", "65,66,67"), ("3 1 1 3 -1024 1024", "72,105"), ("2 2 0 1 1024 -1024", "32,32"), ("0 1 2 2 5 5", "65,66"), ("0 0 0 0 5 5", "65"), ("3 1 1 0 0 0", "-"), ("1 0 0 0 2147483647 0", "65"), ("1 0 0 0 2147483640 0", "65,66"), ("1 1 0 0 0 2147483647", "65"), ("1 0 0 1 0 -2147483648", "65"), ("0 1 0 0 2147483000 0", "65,66,67"), ("3 0 0 0 -2147483648 -2147483648", "65")] {
+            emit(format!("scale.chk.glyph {} {} {}", f, tail, txt));
+        }
+    }
+    for f in [
+        // `char_y = row * height`: one glyph per row, huge character height
+        "8 8 8 2147483648 0 0 0 0 0 0 1 1 0 0 0 0 0 34",
+        "8 8 8 2147483647 0 0 0 0 0 0 1 1 0 0 0 0 0 34",
+        "8 8 8 1431655766 0 0 0 0 0 0 1 1 0 0 0 0 0 35",
+        "8 8 8 1431655765 0 0 0 0 0 0 1 1 0 0 0 0 0 35",
+        "8 8 8 65536 0 0 0 0 0 0 65536 3 0 0 0 0 0 33",
+        "8 8 8 65535 0 0 0 0 0 0 65536 3 0 0 0 0 0 33",
+        // glyph index beyond u32 (truncating cast): (c - 32) * mul
+        "64 8 8 8 0 0 0 0 0 0 4294967296 1 0 0 0 0 0 33,34",
+        "64 8 8 8 0 0 0 0 0 0 4294967295 1 0 0 0 0 0 33,34",
+        // spacing as i32 wraps; transparent arm: (width + spacing) * count in u32
+        "8 8 8 8 4294967295 0 0 0 0 0 1 1 0 0 0 100 0 65,66,67",
+        "8 8 8 8 2147483648 0 0 0 0 0 1 3 0 0 0 0 0 65,66",
+        "8 8 8 8 4294967288 0 0 0 0 0 1 0 1 0 0 0 0 65,66",
+        "8 8 8 8 4294967287 0 0 0 0 0 1 0 1 0 0 0 0 65,66",
+        "8 8 8 8 2147483640 0 0 0 0 0 1 0 1 0 0 0 0 65,66",
+        "8 8 8 8 4294967288 0 0 0 0 0 1 0 1 0 0 0 0 -",
+        "8 8 8 8 4294967287 0 0 0 0 0 1 0 1 0 0 0 0 -",
+        // `(next.x - position.x) as u32`: two advances of i32::MAX from i32::MIN
+        "8 8 2147483647 8 0 0 0 0 0 0 1 1 0 0 0 -2147483648 0 65,66",
+        "8 8 2147483647 8 0 0 0 0 0 0 1 1 1 0 0 -2147483648 0 65",
+        "8 8 2147483647 8 1 0 0 0 0 0 1 1 1 0 0 -2147483648 0 65,66",
+        "8 8 8 8 2147483639 0 0 0 0 0 1 0 1 0 0 0 0 65",
+        "8 8 8 8 2147483639 0 0 0 0 0 1 0 1 0 0 1 0 65",
+        // decoration offsets: `Point + Size` asserts the cast, then adds
+        "8 8 8 8 0 0 2147483648 1 0 1 1 1 1 0 0 0 0 65",
+        "8 8 8 8 0 0 2147483647 1 0 1 1 1 1 0 0 0 0 65",
+        "8 8 8 8 0 0 2147483647 1 0 1 1 1 1 0 0 0 1 65",
+        "8 8 8 8 0 0 0 1 2147483648 1 1 1 0 1 0 0 0 65",
+        "8 8 8 8 0 0 0 1 4294967295 1 1 1 0 2 0 0 0 65",
+        // baseline offsets saturate
+        "8 8 8 4294967295 0 4294967295 0 0 0 0 1 1 0 0 1 0 0 65",
+        "8 8 8 4294967295 0 4294967295 0 0 0 0 1 1 0 0 3 0 -1 65",
+        "8 8 8 4294967295 0 4294967295 0 0 0 0 1 1 0 0 3 0 -2 65",
+    ] {
+        emit(format!("scale.chk.glyph {}", f));
+    }
+    for i in 0..n {
+        let f = *rng.pick(&FONTS);
+        let far = i % 4 == 3;
+        let (mut x, mut y) = (coord(rng), coord(rng));
+        if far {
+            if rng.chance(1, 2) {
+                x = *rng.pick(&XI);
+            } else {
+                y = *rng.pick(&XI);
+            }
+        }
+        let nchars = if i % 16 == 0 { 256 } else { *rng.pick(&[0i64, 1, 2, 3, 7, 20]) };
+        let tail = format!("{} {} {} {} {} {}", rng.below(4), rng.below(3), rng.below(3), rng.below(4), x, y);
+        emit(format!("scale.chk.glyph {} {} {}", f, tail, text_of(rng, nchars)));
+    }
 }
 
 fn tri(t: &mut Toks) -> Triangle {
@@ -689,6 +773,36 @@ fn draw_calls<D: Drawable<Color = Rgb565>>(d: &D, n: usize) -> String {
     let mut t = Calls { v: Vec::new(), limit: n };
     let _ = d.draw(&mut t);
     fmt_calls(&t)
+}
+/// Target that logs every call: `di:<pixel count>`, `fc:<rect>:<colour count>`, `fs:<rect>:<colour>`.
+struct Log(Vec<String>);
+impl Dimensions for Log {
+    fn bounding_box(&self) -> Rectangle {
+        Rectangle::new(Point::new(-4096, -4096), Size::new(8192, 8192))
+    }
+}
+impl DrawTarget for Log {
+    type Color = Rgb565;
+    type Error = core::convert::Infallible;
+    fn draw_iter<I: IntoIterator<Item = Pixel<Rgb565>>>(&mut self, pixels: I) -> Result<(), Self::Error> {
+        self.0.push(format!("di:{}", pixels.into_iter().count()));
+        Ok(())
+    }
+    fn fill_contiguous<I: IntoIterator<Item = Rgb565>>(&mut self, area: &Rectangle, colors: I) -> Result<(), Self::Error> {
+        self.0.push(format!("fc:{}:{}", fmt_rect(area), colors.into_iter().count()));
+        Ok(())
+    }
+    fn fill_solid(&mut self, area: &Rectangle, color: Rgb565) -> Result<(), Self::Error> {
+        self.0.push(format!("fs:{}:{}", fmt_rect(area), color.num()));
+        Ok(())
+    }
+}
+/// glyph index `(c - 32) * mul` in `usize` arithmetic that cannot itself panic
+struct MulMapping(u64);
+impl embedded_graphics::mono_font::mapping::GlyphMapping for MulMapping {
+    fn index(&self, c: char) -> usize {
+        ((c as u64).saturating_sub(32) as u128 * self.0 as u128).min(usize::MAX as u128) as usize
+    }
 }
 fn tri_ds(t: &Triangle) -> bool {
     t.vertices.iter().all(|p| lds(*p))
@@ -837,6 +951,55 @@ pub fn execute(kernel: &str, t: &mut Toks) -> Option<(String, bool)> {
             assert!(w >= 2, "scale.chk.poly.draw: stroke width below 2");
             let ds = pts.iter().all(|p| lds(*p)) && w <= 128;
             (guard(|| draw_calls(&Polyline::new(&pts).into_styled(PrimitiveStyle::with_stroke(Rgb565::from_num(9), w)), n)), ds)
+        }
+        "glyph" => {
+            let img = Size::new(t.u32(), t.u32());
+            let cs = Size::new(t.u32(), t.u32());
+            let (sp, bl) = (t.u32(), t.u32());
+            let ul = DecorationDimensions::new(t.u32(), t.u32());
+            let st = DecorationDimensions::new(t.u32(), t.u32());
+            let mul = t.u64();
+            let colours = t.u32();
+            let (ulc, stc) = (t.u32(), t.u32());
+            let baseline = [Baseline::Top, Baseline::Bottom, Baseline::Middle, Baseline::Alphabetic][t.usize()];
+            let pos = t.point();
+            let text: String = t.u32_list().into_iter().map(|c| char::from_u32(c).expect("scale.chk.glyph: not a scalar value")).collect();
+            let len = ((img.width as usize + 7) / 8) * img.height as usize;
+            assert!(len <= super::ZEROS.len(), "scale.chk.glyph: atlas too large");
+            let mapping = MulMapping(mul);
+            let font = MonoFont {
+                image: ImageRaw::<BinaryColor>::new(&super::ZEROS[..len], img).expect("scale.chk.glyph: atlas"),
+                character_size: cs,
+                character_spacing: sp,
+                baseline: bl,
+                strikethrough: st,
+                underline: ul,
+                glyph_mapping: &mapping,
+            };
+            let deco = |k: u32| match k {
+                0 => DecorationColor::None,
+                1 => DecorationColor::TextColor,
+                _ => DecorationColor::Custom(Rgb565::from_num(5)),
+            };
+            let mut b = MonoTextStyleBuilder::new().font(&font);
+            if colours & 1 != 0 {
+                b = b.text_color(Rgb565::from_num(1));
+            }
+            if colours & 2 != 0 {
+                b = b.background_color(Rgb565::from_num(2));
+            }
+            let mut style = b.build();
+            style.underline_color = deco(ulc);
+            style.strikethrough_color = deco(stc);
+            let ds = cs.width <= 1024 && cs.height <= 1024 && sp <= 1024 && bl <= 1024 && ul.offset <= 1024 && st.offset <= 1024 && mul <= 4 && lds(pos) && text.chars().count() <= 256;
+            (
+                guard(|| {
+                    let mut log = Log(Vec::new());
+                    let next = style.draw_string(&text, pos, baseline, &mut log).unwrap();
+                    format!("calls={} next={},{}", if log.0.is_empty() { "-".to_string() } else { log.0.join("|") }, next.x, next.y)
+                }),
+                ds,
+            )
         }
         _ => return None,
     })
